@@ -84,7 +84,36 @@ func rulesC11(p *Prog, r *Report) {
 				return false
 			}
 			for _, o := range os {
-				if !(o.Kind == "param" && o.Val == bidParam) {
+				if o.Kind != "param" {
+					return false
+				}
+				if o.Val == bidParam {
+					continue
+				}
+				// inside a check extracted into a helper the offer is the helper's parameter: every
+				// call of that helper from the bid function must pass the bid
+				pr, isP := o.Val.(*ssa.Parameter)
+				if !isP || pr.Parent() == nil || pr.Parent() == fn {
+					return false
+				}
+				idx := paramIndex(pr)
+				bound := false
+				for _, cs := range p.CallSitesOf(pr.Parent()) {
+					if cs.Parent() != fn {
+						continue
+					}
+					args := cs.Common().Args
+					if idx < 0 || idx >= len(args) {
+						return false
+					}
+					for _, o2 := range p.DeepOrigins(args[idx]) {
+						if !(o2.Kind == "param" && o2.Val == bidParam) {
+							return false
+						}
+					}
+					bound = true
+				}
+				if !bound {
 					return false
 				}
 			}
@@ -156,19 +185,23 @@ func rulesC11(p *Prog, r *Report) {
 		r.Instance("R11.2")
 		var takeBlocks, refundBlocks []*ssa.BasicBlock
 		refundProvenance := ""
-		for _, c := range calls(fn) {
+		for _, vs := range p.virtualSites(fn, nil) { // same-module helpers count at their call site
+			if vs.call == nil {
+				continue
+			}
+			c := vs.call
 			be := bankEffect(c)
 			if be == nil {
 				continue
 			}
 			if be.Op == "AccToMod" && isAuctionMod(be.To) {
-				takeBlocks = append(takeBlocks, c.Block())
+				takeBlocks = append(takeBlocks, vs.anchor.Block())
 			}
 			if be.Op == "ModToAcc" && isAuctionMod(be.From) {
 				recOK := p.fromRecordFieldsLoose(be.To, im.recTypes, im.bidderFields)
 				coinOK := p.fromRecordFieldsLoose(be.Coins, im.recTypes, im.bidFields)
-				if recOK && coinOK {
-					refundBlocks = append(refundBlocks, c.Block())
+				if recOK && coinOK && vs.must {
+					refundBlocks = append(refundBlocks, vs.anchor.Block())
 				} else {
 					refundProvenance = fmt.Sprintf("%s: recipient from stored bidder=%v, coins from stored standing bid=%v", p.instrPos(c), recOK, coinOK)
 				}
@@ -477,7 +510,13 @@ func rulesC11(p *Prog, r *Report) {
 // records. Used where values mix a stored field with configuration (bid factor).
 func (p *Prog) fromRecordFieldsLoose(v ssa.Value, typs map[string]bool, fields map[string]bool) bool {
 	hit := false
-	for _, o := range p.DeepOrigins(v) {
+	// "is this value built from field F of record R" holds through helpers that only compute
+	// (an extracted split / conversion function)
+	prev := p.throughPureOn
+	p.throughPureOn = true
+	os := p.DeepOrigins(v)
+	p.throughPureOn = prev
+	for _, o := range os {
 		for i := len(o.Path) - 1; i >= 0; i-- {
 			if fields[o.Path[i]] {
 				sub := o
